@@ -1,7 +1,11 @@
 """C14 — each file opens with exactly its own family's opener; others refuse cleanly.
 
 proof side : lean/SarpyModel/Props/C14.lean over lean/SarpyModel/Spec/Opener.lean (decision model of the openers,
-             `_find_sicd`, `_find_sidd`, the cascade, writer models; all DES lists / image counts, no bounds)
+             `_find_sicd`, `_find_sidd`, the cascade, writer models; all DES lists / image counts, no bounds);
+             lean/SarpyModel/Props/C14Vendor.lean over Spec/OpenerVendor.lean (every registered is_a as a guard table over the
+             observations of its argument, the full trial loops for any registration order, NITF 2.0 containers)
+translator : translate/gen_openers.py regenerates the guard tables, registration orders, trial-loop shapes and the order of
+             sarpy.io.open from the AST of /repo (Gen/Openers.lean); Bridge/Openers.lean proves them equal to the specified ones
 tie        : correspondence - for every real file the harness extracts the descriptor itself (magic bytes, NITF header
              and subheaders parsed out-of-band, DES ids, XML root tags), asks the Lean driver what every opener decides, and
              compares with what each real entry point does (path and, where documented, open binary file object); the
@@ -26,11 +30,24 @@ import warnings
 import xml.etree.ElementTree as ET
 
 from common import Check, Driver, Infra, VERIF, sarpy_guard
+import c14x
 
 REQUIRED = ['cascade_first_accept', 'cascade_reject', 'cascade_raises', 'findSicd_some_iff', 'findSicd_none_iff',
             'mem_findSidd_fst', 'mem_findSidd_snd', 'findSidd_fst_length', 'findSidd_snd_length', 'findSidd_isSidd_iff',
             'no_signature_rejects', 'unsupported_nitf_version_rejects', 'sicd_written_exclusive',
             'sidd_written_exclusive', 'exclusive_on_written', 'written_unique_family', 'general_on_written']
+
+# extension (Props/C14Vendor.lean): every registered opener as a guard table, full trial loops, NITF 2.0
+REQUIRED_V = ['cascade_append_rejects', 'cascade_filter_rejects', 'cascade_unique_accept', 'cascade_const',
+              'foreign_rejects_fileobj', 'foreign_rejects_missing', 'foreign_rejects_signed', 'foreign_rejects_unsigned', 'foreign_rejects_dir',
+              'capella_raises_iff', 'tiff_raises_iff', 'radarsat_raises_iff', 'tsx_raises_iff', 'palsar2_raises_iff', 'guards_never_raise',
+              'isAV_sio', 'isAV_final', 'openComplexWith_eq', 'complexOrder_ok', 'openGeneralV_eq', 'full_eq_model',
+              'exclusive_on_written_full', 'no_signature_rejects_full', 'missing_path_rejects', 'dir_rejects_full',
+              'nitf_without_family_des_rejects', 'nitf20_fallback', 'symbols_labels_irrelevant']
+# Bridge/Openers.lean: regenerated tables / orders = specified ones
+BRIDGE_REQUIRED = ['gen_tab_eq', 'gen_complexOrder_eq', 'gen_productOrder_eq', 'gen_phaseHistoryOrder_eq', 'gen_receivedOrder_eq',
+                   'gen_generalOrder_eq', 'gen_topOrder_eq', 'gen_entryShape_eq', 'gen_pins', 'gen_isA_eq']
+GEN_OPENERS = os.path.join(VERIF, 'lean', 'SarpyModel', 'Gen', 'Openers.lean')
 
 DATA = os.path.join(os.environ.get('SARPY_REPO', '/repo'), 'tests', 'data')
 
@@ -95,7 +112,8 @@ def parse_nitf(b, v20):
         icat = h[360:368].decode('latin1').strip()
         p = 371
         icords = h[p:p + 1]; p += 1
-        if icords not in ((b'N', b' ') if v20 else (b' ',)):
+        has_geo = icords not in ((b'N', b' ') if v20 else (b' ',))
+        if has_geo:
             p += 60
         nicom = int(h[p:p + 1]); p += 1 + 80 * nicom
         ic = h[p:p + 2]; p += 2
@@ -110,23 +128,30 @@ def parse_nitf(b, v20):
             nluts = int(h[p + 12:p + 13]); p += 13
             if nluts > 0:
                 nelut = int(h[p:p + 5]); p += 5 + nluts * nelut
-        images.append({'iid1': iid1, 'pvtype': pvtype, 'icat': icat, 'subcats': subcats})
+        images.append({'iid1': iid1, 'pvtype': pvtype, 'icat': icat, 'subcats': subcats, 'geo': has_geo})
         cur += sh + it
     for sh, it in graphics + labels + texts:
         cur += sh + it
     dess = []
+    shift = sum(sh + it for sh, it in graphics + labels) if v20 else 0     # bytes of the symbol and label segments
+    shifted = []
     for sh, it in des:
         h = b[cur:cur + sh]
         body = b[cur + sh:cur + sh + it]
         dess.append((h, body))
+        # what a reader finds that leaves the symbol / label segments out of its running offset
+        shifted.append((b[cur - shift:cur - shift + sh], b[cur - shift + sh:cur - shift + sh + it]))
         cur += sh + it
-    return images, (0 if v20 else len(graphics)), dess
+    extra = {'symbols': len(graphics) if v20 else 0, 'labels': len(labels), 'shifted': shifted}
+    return images, (0 if v20 else len(graphics)), dess, extra
 
 
 def img_token(im):
     """map an image subheader to the model's image classes; None = outside the modelled classes"""
     if im['icat'] not in ('SAR', 'SARIQ'):
         return 'o'
+    if not im['geo']:
+        return None        # SAR segment without IGEOLO: outside the modelled classes (direct oracle only)
     iid1 = im['iid1'].rstrip()
     if im['icat'] == 'SAR' and iid1[:4] == 'SIDD' and iid1[4:].isdigit() and len(iid1) >= 7 \
             and im['pvtype'] not in ('C', 'R', 'SI') and int(iid1[4:7]) >= 1:
@@ -154,19 +179,26 @@ def des_token(h, body):
     return f'{i}:{k}'
 
 
-def describe(path):
-    """-> (descriptor token string or None when an image is outside the modelled classes, magic)"""
+def describe(path, skips_symlab=False):
+    """-> (descriptor token string or None when an image is outside the modelled classes, magic, 'symbols labels' tokens).
+    A directory / special file / missing path has the empty descriptor."""
+    if not os.path.isfile(path):
+        return 'none - 0 -', 'none', '0 0'
     with open(path, 'rb') as f:
         b = f.read()
     m = magic_of(b[:16])
     if m not in ('nitf21', 'nitf20'):
-        return f'{m} - 0 -', m
-    images, g, dess = parse_nitf(b, m == 'nitf20')
+        return f'{m} - 0 -', m, '0 0'
+    images, g, dess, extra = parse_nitf(b, m == 'nitf20')
     it = [img_token(im) for im in images]
     dt = [des_token(h, body) for h, body in dess]
     if any(t is None for t in it):
-        return None, m
-    return f'{m} {",".join(it) or "-"} {g} {",".join(dt) or "-"}', m
+        return None, m, '0 0'
+    if skips_symlab and extra['symbols'] + extra['labels'] > 0:
+        # the model takes a DES read at a wrong offset as "unknown id, not XML": check that this is what the bytes there look like
+        if any(des_token(h, body) != 'ot:nxml' for h, body in extra['shifted']):
+            return None, m, '0 0'
+    return f'{m} {",".join(it) or "-"} {g} {",".join(dt) or "-"}', m, f'{extra["symbols"]} {extra["labels"]}'
 
 
 def source_policy():
@@ -181,8 +213,8 @@ def source_policy():
 # ---------------------------------------------------------------------------------------------------------------
 # file factory: every file is built from a JSON-serialisable recipe (also used by replay)
 
-OTHER_XML = b'<?xml version="1.0" encoding="utf-8"?><Foo xmlns="urn:foo:1.0"><Bar>1</Bar></Foo>'
-NON_XML = b'\x00\x01\x02 this is not xml <<< &'
+OTHER_XML = c14x.OTHER_XML
+NON_XML = c14x.NON_XML
 
 
 class Factory:
@@ -261,11 +293,15 @@ class Factory:
         from sarpy.io.general.nitf import ImageSubheaderManager
         from sarpy.io.general.nitf_elements.image import ImageSegmentHeader
         self.des_manager(('x', 'oxml'))
-        if kind == 'c':
+        if kind in ('c', 'cn'):
             src = self._swd.image_managers[0]
         else:
             src = self._dwd.image_managers[0]
-        m = ImageSubheaderManager(ImageSegmentHeader.from_bytes(src.subheader.to_bytes(), 0))
+        hdr = ImageSegmentHeader.from_bytes(src.subheader.to_bytes(), 0)
+        if kind == 'cn':          # complex segment without geolocation
+            hdr.ICORDS = ' '
+            hdr.IGEOLO = None
+        m = ImageSubheaderManager(hdr)
         if kind.startswith('d'):
             m.subheader.IID1 = 'SIDD%03d001' % (int(kind[1:]) + 1)
         elif kind == 'o':
@@ -404,12 +440,67 @@ class Factory:
             with open(p, 'wb') as f:
                 f.write(h.to_bytes() + ib + idata + db + ddata)
             return p
+        if k == 'nitf20x':
+            # NITF 2.0 assembled by hand (c14x.build_nitf20): image / symbol / label / text / DES segments
+            self.des_manager(('x', 'oxml'))
+            bodies = {'sicd': self._swd.des_managers[-1].item_bytes, 'sidd': self._dwd.des_managers[0].item_bytes,
+                      'oxml': OTHER_XML, 'nxml': NON_XML}
+            p = self.new_path('ntf')
+            c14x.build_nitf20(p, r['images'], r['nsym'], r['nlab'], r['ntext'], [tuple(e) for e in r['des']], bodies)
+            return p
+        if k == 'placed':
+            # the base file under another name / beside other directory entries
+            src = self.make(r['base'])
+            self.n += 1
+            d = os.path.join(self.tmp, f'env_{self.n:05d}')
+            os.mkdir(d)
+            dst = os.path.join(d, r.get('name') or os.path.basename(src))
+            shutil.move(src, dst)
+            for name, hx in r.get('siblings', {}).items():
+                with open(os.path.join(d, name), 'wb') as f:
+                    f.write(bytes.fromhex(hx))
+            return dst
+        if k == 'dir':
+            self.n += 1
+            d = os.path.join(self.tmp, f'dir_{self.n:05d}')
+            os.mkdir(d)
+            for name, e in r['entries'].items():
+                q = os.path.join(d, name)
+                os.makedirs(os.path.dirname(q), exist_ok=True)
+                if isinstance(e, dict):
+                    shutil.move(self.make(e), q)
+                else:
+                    with open(q, 'wb') as f:
+                        f.write(bytes.fromhex(e))
+            return d
+        if k == 'special':
+            if not os.path.exists(r['path']):
+                raise Infra(f'{r["path"]} is not available on this machine')
+            return r['path']
         raise Infra(f'unknown recipe {r}')
+
+    def discard(self, r, path):
+        if r['kind'] in ('file', 'special'):
+            return
+        top = path
+        while os.path.dirname(top) != self.tmp and os.path.dirname(top) not in ('', '/'):
+            top = os.path.dirname(top)
+        if os.path.dirname(top) != self.tmp:
+            return
+        if os.path.isdir(top):
+            shutil.rmtree(top, ignore_errors=True)
+        else:
+            try:
+                os.remove(top)
+            except OSError:
+                pass
 
 
 def blob_bytes(r):
     import random
     n, g = r['n'], r['gen']
+    if g == 'bytes':
+        return bytes.fromhex(r['hex'])
     if g == 'zeros':
         return b'\x00' * n
     if g == 'text':
@@ -419,7 +510,7 @@ def blob_bytes(r):
     rr = random.Random(r['seed'])
     while True:
         b = rr.randbytes(n)
-        if not any(b.startswith(s) for s in SIGNATURES):
+        if not any(b.startswith(s) for s in SIGNATURES) and b[:4] != b'\x89HDF':
             return b
 
 
@@ -531,6 +622,45 @@ EXPECT = {   # label -> (entry point that must accept, base class name that the 
 FILEOBJ_OK = {'SICD', 'CPHD'}     # kinds for which the file-object form of the right opener must also accept
 
 
+def base_recipe(r):
+    """the recipe of the file itself (a `placed` recipe wraps one)"""
+    while r.get('kind') == 'placed':
+        r = r['base']
+    return r
+
+
+def nitf20_complex_like(r):
+    """stated from the recipe: a complex-like SAR segment and no integer SAR segment (which makes extract_sicd refuse)"""
+    return any(x in ('c', 'cn') for x in r['images']) and not any(x.startswith('d') for x in r['images'])
+
+
+def is_a_outcome(fn, path, argkind):
+    """one real `is_a` -> 'A:<kind>' | 'R' | 'X' (+ exception text)"""
+    from sarpy.io.general.base import SarpyIOError
+    fo = None
+    try:
+        if argkind == 'fileobj':
+            fo = open(path, 'rb')
+            fo.seek(min(3, os.path.getsize(path)))
+        try:
+            rd = fn(fo if fo is not None else path)
+        except SarpyIOError as e:
+            return 'XS', f'SarpyIOError escaped is_a: {str(e)[:80]}'
+        except Exception as e:
+            return 'X', f'{type(e).__name__}: {str(e)[:80]}'
+        if rd is None:
+            return 'R', None
+        cls = type(rd).__name__
+        try:
+            rd.close()
+        except Exception:
+            pass
+        return 'A:' + READER_KIND.get(cls, cls), None
+    finally:
+        if fo is not None and not fo.closed:
+            fo.close()
+
+
 def classify_failure(label, recipe, epname, argkind, res):
     """stable keys for the defects this check is known to reproduce"""
     et = res.get('exc_type')
@@ -540,18 +670,64 @@ def classify_failure(label, recipe, epname, argkind, res):
         return 'nitf20-graphics-attribute-error'
     if recipe['kind'] == 'sidd' and recipe.get('graphics', 0) and epname in ('open_product', 'open'):
         return 'sidd-writer-graphics-segment'
+    b = base_recipe(recipe)
+    sibs = recipe.get('siblings', {}) if recipe['kind'] == 'placed' else recipe.get('entries', {}) if recipe['kind'] == 'dir' else {}
+    if epname in ('open_complex', 'open', 'open_general') and et == 'IndexError' and b['kind'] == 'blob' and b['n'] < 4 \
+            and blob_bytes(b)[:2] in (b'II', b'MM'):
+        return 'tiff-short-index-error'
+    if epname in ('open_complex', 'open') and argkind == 'path' and et == 'ParseError' and \
+            (recipe.get('name') == 'product.xml' or 'product.xml' in sibs or 'metadata/product.xml' in sibs):
+        return 'product-xml-name-parse-error'
+    if epname in ('open_complex', 'open') and argkind == 'path' and et == 'ValueError' and 'Poorly formed xml declaration' in (res.get('exc') or '') \
+            and ((recipe.get('name') or '').endswith('.xml') or any(k.endswith('.xml') for k in sibs)):
+        return 'tsx-dangling-xml-declaration'
+    if epname in ('open_complex', 'open') and argkind == 'path' and et == 'ValueError' and recipe['kind'] == 'special':
+        return 'special-file-value-error'
+    if epname in ('open_complex', 'open') and argkind == 'path' and et == 'error' and \
+            any(k.startswith(c14x.PALSAR_PREFIXES) and len(v) < 24 for k, v in sibs.items() if isinstance(v, str)):
+        return 'palsar-short-sibling-struct-error'
+    if b['kind'] == 'nitf20x' and epname in ('open_complex', 'open') and argkind == 'path' and et == 'AttributeError' \
+            and any(x != 'o' for x in b['images']):
+        return 'nitf20-sar-image-attribute-error'
+    if b['kind'] in ('nitf20x', 'nitf') and epname in ('open_complex', 'open') and argkind == 'path' and et == 'TypeError' \
+            and 'cn' in b['images']:
+        return 'nitf-sar-image-without-igeolo-type-error'
     return f'{label}:{epname}:{argkind}:{res["out"]}:{et}'
 
 
 def oracle_cell(label, recipe, epname, argkind, res, results):
     """-> failure message or None.  `results` = all cells of this file (for the top-level comparison)"""
     out = res['out']
-    if label == 'BLOB':
+    place = ''
+    if recipe.get('kind') == 'placed':
+        place = f' (as {recipe.get("name") or "its own name"}' + (f', beside {sorted(recipe["siblings"])}' if recipe.get('siblings') else '') + ')'
+        recipe_file = base_recipe(recipe)
+    else:
+        recipe_file = recipe
+    if label in ('BLOB', 'DIR', 'SPECIAL'):
+        what = {'BLOB': lambda: f'signature-less {recipe_file["gen"]} string of length {recipe_file["n"]}{place}',
+                'DIR': lambda: f'directory with entries {sorted(recipe["entries"])}',
+                'SPECIAL': lambda: f'special file {recipe["path"]}'}[label]()
         if out != 'R':
-            return f'signature-less {recipe["gen"]} string of length {recipe["n"]}: {epname}({argkind}) ' + \
+            return f'{what}: {epname}({argkind}) ' + \
                    (f'raised {res["exc"]}' if out == 'X' else f'returned a {res["cls"]}') + ' instead of raising SarpyIOError'
         if res['fo_ok'] is False:
-            return f'{epname}(file object) rejected a signature-less string but left the file object unusable'
+            return f'{epname}(file object) rejected {what} but left the file object unusable'
+        return None
+    if label == 'NITF20':
+        # NITF 2.0 container without SICD / SIDD document, stated from the recipe
+        cl = nitf20_complex_like(recipe_file)
+        what = f'NITF 2.0 file {short(recipe_file)}{place}'
+        if out == 'X':
+            return f'{what}: {epname}({argkind}) raised {res["exc"]} (neither a reader nor SarpyIOError)'
+        if res['fo_ok'] is False:
+            return f'{what}: {epname}(file object) rejected the file but left the file object closed/unusable'
+        want = {('open_complex', 'path'): 'ComplexNITFReader' if cl else None, ('open_general', 'path'): 'NITFReader',
+                ('open', 'path'): 'ComplexNITFReader' if cl else 'NITFReader'}.get((epname, argkind))
+        if want is None and out != 'R':
+            return f'{what}: {epname}({argkind}) returned a {res["cls"]} instead of raising SarpyIOError'
+        if want is not None and res['cls'] != want:
+            return f'{what}: {epname}({argkind}) gave {out} ({res["cls"]}), expected a {want}'
         return None
     if label == 'NITF-arbitrary':
         if out == 'X' and not recipe.get('inconsistent'):
@@ -562,14 +738,14 @@ def oracle_cell(label, recipe, epname, argkind, res, results):
     want_ep, want_base, want_rt = EXPECT[label]
     fam = FAMILY_OF_EP[epname]
     if out == 'X':
-        return f'{label} file {short(recipe)}: {epname}({argkind}) raised {res["exc"]} (neither a reader nor SarpyIOError)'
+        return f'{label} file {short(recipe_file)}{place}: {epname}({argkind}) raised {res["exc"]} (neither a reader nor SarpyIOError)'
     if res['fo_ok'] is False:
-        return f'{label} file {short(recipe)}: {epname}(file object) rejected the file but left the file object closed/unusable'
+        return f'{label} file {short(recipe_file)}{place}: {epname}(file object) rejected the file but left the file object closed/unusable'
     if epname == want_ep:
         must_accept = argkind == 'path' or label in FILEOBJ_OK
         if must_accept:
             if out == 'R':
-                return f'{label} file {short(recipe)}: its own opener {epname}({argkind}) refused it'
+                return f'{label} file {short(recipe_file)}{place}: its own opener {epname}({argkind}) refused it'
             if want_base not in res['mro'] or res['reader_type'] != want_rt:
                 return f'{label} file {short(recipe)}: {epname}({argkind}) returned {res["cls"]} (reader_type {res["reader_type"]}), expected a {want_base}'
         elif out.startswith('A:') and want_base not in res['mro']:
@@ -588,11 +764,11 @@ def oracle_cell(label, recipe, epname, argkind, res, results):
             return None
         own = results.get((want_ep, 'path'))
         if out == 'R' or own is None or res['cls'] != own['cls'] or res['reader_type'] != want_rt:
-            return f'{label} file {short(recipe)}: sarpy.io.open gave {out} ({res["cls"]}) but {want_ep} gives {own and own["out"]}'
+            return f'{label} file {short(recipe_file)}{place}: sarpy.io.open gave {out} ({res["cls"]}) but {want_ep} gives {own and own["out"]}'
         return None
     # one of the three other families
     if out != 'R':
-        return f'{label} file {short(recipe)}: foreign opener {epname}({argkind}) returned a {res["cls"]} instead of raising SarpyIOError'
+        return f'{label} file {short(recipe_file)}{place}: foreign opener {epname}({argkind}) returned a {res["cls"]} instead of raising SarpyIOError'
     return None
 
 
@@ -655,6 +831,8 @@ def written_recipes(rng, tier):
     out.append({'kind': 'nitf', 'label': 'NITF-complex', 'images': ['c'], 'des': [], 'graphics': 0})
     out.append({'kind': 'nitf', 'label': 'NITF-complex', 'images': ['o', 'c'], 'des': [['x', 'oxml']], 'graphics': 0})
     out.append({'kind': 'nitf20', 'label': 'NITF-general'})
+    # a complex NITF 2.1 whose SAR image segment carries no geolocation (ICORDS blank, no IGEOLO)
+    out.append({'kind': 'nitf', 'label': 'NITF-complex', 'images': ['cn'], 'des': [], 'graphics': 0})
     return out
 
 
@@ -688,6 +866,77 @@ def blob_recipes(rng, tier):
     return out
 
 
+def env_recipes(rng, tier):
+    """the same files under the names / in the surroundings the vendor openers look at; directories; a special file"""
+    out = []
+    sicd = {'kind': 'sicd', 'label': 'SICD', 'extra': [], 'row_limit': None}
+    sidd = {'kind': 'sidd', 'label': 'SIDD', 'version': 3, 'pixel': 'MONO8I', 'rows': [7], 'nsicd': 1, 'extra': [], 'row_limit': None, 'graphics': 0}
+    cphd = {'kind': 'cphd', 'label': 'CPHD', 'src': '1.1.0-monostatic-minimal', 'nv': 2, 'ns': 3}
+    crsd = {'kind': 'crsd', 'label': 'CRSD', 'nchan': 1, 'nv': 2, 'ns': 3}
+    text = {'kind': 'blob', 'label': 'BLOB', 'gen': 'text', 'n': 40, 'seed': 0}
+    empty = {'kind': 'blob', 'label': 'BLOB', 'gen': 'zeros', 'n': 0, 'seed': 0}
+    xml = {'kind': 'blob', 'label': 'BLOB', 'gen': 'xml', 'n': 80, 'seed': 0}
+
+    def raw(b):
+        return {'kind': 'blob', 'label': 'BLOB', 'gen': 'bytes', 'hex': b.hex(), 'n': len(b), 'seed': 0}
+    bases = [sicd, sidd, cphd, crsd, text, empty, xml]
+    if tier != 'quick':
+        bases += [dict(sicd, extra=[['x', 'oxml']], row_limit=3), dict(sidd, version=2, rows=[5, 6]), raw(rng.randbytes(33))]
+    for b in bases:
+        for name in ('product.xml', 'manifest.safe', 'data.xml'):
+            out.append({'kind': 'placed', 'label': b['label'], 'base': b, 'name': name})
+    # PALSAR-named directory entries: the file itself, a long sibling that is no PALSAR file, a short sibling
+    other = bytes(range(32)).hex()
+    for b in (sicd, text):
+        out.append({'kind': 'placed', 'label': b['label'], 'base': b, 'name': 'IMG-OWN-NAME.dat'})
+        out.append({'kind': 'placed', 'label': b['label'], 'base': b, 'name': None, 'siblings': {'IMG-OTHER': other, 'LED-OTHER': other}})
+        out.append({'kind': 'placed', 'label': b['label'], 'base': b, 'name': None, 'siblings': {'IMG-x': '6162'}})
+    # leading bytes that are a prefix of a vendor signature but no signature
+    for b in (b'II', b'MM', b'II*', b'MM\x00', b'I', b'M', b'IIII', b'MMMM', b'II\x00*', b'\x89HD', b'\x89', b'GSATIM', b'GSAT', b'NIT', b'NITF', b'NITF02.1',
+              b'CPH', b'CRS', b'\xff\x01\x7f', b'<?xm'):
+        out.append(raw(b))
+    # XML-looking content under an .xml name (TerraSAR-X looks at the first 200 bytes)
+    for b in (b'<?xml', b'<?xml version="1.0"', b'<?xml version="1.0"?><root/>', b'hello', b'', b'<level1Produc', b'  <root/>'):
+        out.append({'kind': 'placed', 'label': 'BLOB', 'base': raw(b), 'name': 'x.xml'})
+    # directories
+    junk = b'not xml at all'.hex()
+    out.append({'kind': 'dir', 'label': 'DIR', 'entries': {}})
+    out.append({'kind': 'dir', 'label': 'DIR', 'entries': {'plain.nitf': sicd}})
+    out.append({'kind': 'dir', 'label': 'DIR', 'entries': {'a.txt': junk, 'b.bin': '00'}})
+    out.append({'kind': 'dir', 'label': 'DIR', 'entries': {'product.xml': junk}})
+    out.append({'kind': 'dir', 'label': 'DIR', 'entries': {'metadata/product.xml': junk}})
+    out.append({'kind': 'dir', 'label': 'DIR', 'entries': {'manifest.safe': junk}})
+    out.append({'kind': 'dir', 'label': 'DIR', 'entries': {'q.xml': b'<?xml ver'.hex()}})
+    out.append({'kind': 'dir', 'label': 'DIR', 'entries': {'q.xml': b'<?xml version="1.0"?><root/>'.hex(), 'r.xml': junk}})
+    out.append({'kind': 'dir', 'label': 'DIR', 'entries': {'IMG-x': '6162'}})
+    out.append({'kind': 'dir', 'label': 'DIR', 'entries': {'IMG-OTHER': other}})
+    if os.path.exists('/dev/null'):
+        out.append({'kind': 'special', 'label': 'SPECIAL', 'path': '/dev/null'})
+    return out
+
+
+NEUTRAL_20 = [('x', 'oxml'), ('x', 'nxml'), ('ot', 'oxml'), ('ot', 'nxml'), ('oc', 'oxml'), ('oc', 'nxml')]
+
+
+def nitf20_recipes(rng, tier):
+    """hand-assembled NITF 2.0 containers without SICD / SIDD document (label NITF20: decided by the oracle), and a few with one
+    (label NITF20-des: SICDDetails / SIDDDetails level only - no sarpy writer produces them)"""
+    def rec(images, nsym, nlab, ntext, des, label='NITF20'):
+        return {'kind': 'nitf20x', 'label': label, 'images': images, 'nsym': nsym, 'nlab': nlab, 'ntext': ntext, 'des': [list(e) for e in des]}
+    out = [rec(['o'], 0, 0, 0, []), rec(['o'], 0, 0, 0, [('x', 'oxml')]), rec(['c'], 0, 0, 0, []), rec(['c'], 0, 0, 0, [('x', 'oxml')]),
+           rec(['c', 'o'], 1, 0, 0, [('x', 'oxml')]), rec(['o', 'c'], 0, 2, 1, [('x', 'oxml'), ('ot', 'nxml')]),
+           rec(['d0'], 1, 1, 1, [('ot', 'nxml')]), rec(['d0', 'c'], 0, 0, 0, []), rec(['c', 'c'], 2, 1, 0, [('oc', 'nxml')]),
+           rec(['cn'], 0, 0, 0, []), rec(['o', 'cn'], 1, 0, 0, [('x', 'oxml')])]
+    for _ in range(6 if tier == 'quick' else 60):
+        imgs = [rng.choice(['c', 'o', 'o', 'd0']) for _ in range(rng.choice([1, 1, 2, 3]))]
+        out.append(rec(imgs, rng.choice([0, 0, 1, 2]), rng.choice([0, 0, 1, 2]), rng.choice([0, 1]),
+                       [rng.choice(NEUTRAL_20) for _ in range(rng.choice([0, 1, 1, 2, 3]))]))
+    for nsym, nlab, des in [(0, 0, [('x', 'sicd')]), (1, 0, [('x', 'sicd')]), (0, 2, [('x', 'oxml'), ('oc', 'sicd')]), (0, 0, [('x', 'sidd'), ('x', 'sicd')]),
+                            (2, 1, [('os', 'sidd')])]:
+        out.append(rec(['c'], nsym, nlab, 0, des, label='NITF20-des'))
+    return out
+
+
 def writer_model_query(r):
     """driver request that makes the writer model produce the descriptor of this recipe (None if not a modelled writer)"""
     def toks(extra):
@@ -713,9 +962,18 @@ def run(tier):
     warnings.simplefilter('ignore')
     chk = Check('C14', tier)
     rng = chk.rng
-    broken = chk.prove(['SarpyModel.Props.C14', 'SarpyModel.Drivers'], 'SarpyModel.Props.C14', 'Sarpy.Props.C14', REQUIRED)
+    import gen_openers
+    try:
+        gen_info = gen_openers.generate(GEN_OPENERS)
+    except Exception as e:
+        gen_info = {'unsupported': [f'translate/gen_openers.py crashed: {type(e).__name__}: {e}']}
+    broken = chk.prove(['SarpyModel.Props.C14Vendor', 'SarpyModel.Bridge.Openers'], 'SarpyModel.Props.C14Vendor', 'Sarpy.Props.C14',
+                       REQUIRED + REQUIRED_V, gen_info, extra=[('SarpyModel.Bridge.Openers', 'Sarpy.Bridge.Openers', BRIDGE_REQUIRED)])
+    if gen_info['unsupported']:
+        broken.append('the opener translator could not express: ' + json.dumps(gen_info['unsupported'])[:600])
     eps = entry_points()
     policy = source_policy()
+    reg = c14x.registered()
 
     tmp = tempfile.mkdtemp(dir='/var/tmp', prefix='c14_')
     fails, disagreements, notes = [], [], []
@@ -726,27 +984,46 @@ def run(tier):
     timing = {}
     try:
         fac = Factory(tmp)
-        recipes = written_recipes(rng, tier) + arbitrary_recipes(rng, tier) + blob_recipes(rng, tier)
+        # ---- reader-side switches measured on the implementation (Policy2 of the model)
+        try:
+            bits, policy_info = c14x.probe_policy(tmp, policy)
+        except Exception as e:
+            raise Infra(f'policy probes failed: {type(e).__name__}: {e}')
+        skips = bits[1] == '1'
+        tab_flags = c14x.flags_from_tables(GEN_OPENERS)
+        if policy_info.get('palsar2_on_dev_null') == 'unavailable' and tab_flags is not None:
+            bits = bits[:6] + tab_flags[3]      # no special file to probe with on this machine: take the switch from the regenerated table
+        if tab_flags is not None and tab_flags != bits[3:7]:
+            disagreements.append({'msg': f'guard-defect flags: the regenerated tables show {tab_flags} (tiffShort radarsatParse tsxDangling palsarSpecial) '
+                                         f'but the probes on the implementation measure {bits[3:7]}', 'recipe': {'kind': 'probe'}})
+        recipes = written_recipes(rng, tier) + nitf20_recipes(rng, tier) + env_recipes(rng, tier) + arbitrary_recipes(rng, tier) + blob_recipes(rng, tier)
         drv = Driver()
         records = []
         t_build = time.time()
         for r in recipes:
             try:
                 path = fac.make(r)
+            except Infra:
+                raise
             except Exception as e:
                 fails.append({'key': f'build:{r["kind"]}', 'msg': f'could not build {r["label"]} file {short(r)}: {type(e).__name__}: {e}',
                               'recipe': r, 'trace': traceback.format_exc()[-1500:]})
                 continue
-            desc, magic = describe(path)
-            rec = {'recipe': r, 'path': path, 'desc': desc, 'magic': magic, 'q': None, 'wq': None}
+            desc, magic, symlab = describe(path, skips)
+            rec = {'recipe': r, 'path': path, 'desc': desc, 'magic': magic, 'q': None, 'wq': None, 'vq': {}}
             if desc is not None:
                 rec['q'] = drv.ask(f'opener eval {policy} ' + desc)
+                for argkind in ('path', 'fileobj'):
+                    if argkind == 'fileobj' and not os.path.isfile(path) and r['kind'] != 'special':
+                        continue
+                    rec['vq'][argkind] = drv.ask(f'opener vendor {bits} {c14x.world_of(path, argkind)} {desc} {symlab}')
             else:
                 unmodelled += 1
-            wq = writer_model_query(r)
+            wq = writer_model_query(base_recipe(r))
             if wq is not None:
                 rec['wq'] = drv.ask(wq)
             records.append(rec)
+            # files are built and looked at one after the other, but they must exist while the openers run: keep them
         timing['build_s'] = round(time.time() - t_build, 2)
         try:
             ans = drv.run()
@@ -755,28 +1032,53 @@ def run(tier):
             broken.append('model driver does not build/run: ' + str(e)[:300])
 
         t_run = time.time()
+        isa_checked = 0
+        isa_opaque = 0
         for rec in records:
             r, path, label = rec['recipe'], rec['path'], rec['recipe']['label']
             model = None
+            vmodel = {}
             if ans is not None and rec['q'] is not None:
                 if ans[rec['q']] == 'bad-op':
                     disagreements.append({'msg': f'driver refused descriptor {rec["desc"]}', 'recipe': r})
                 else:
                     model = dict(t.split('=', 1) for t in ans[rec['q']].split())
+                for argkind, q in rec['vq'].items():
+                    if ans[q] == 'bad-op':
+                        disagreements.append({'msg': f'driver refused world/descriptor of {short(r)} ({argkind})', 'recipe': r})
+                    else:
+                        vmodel[argkind] = dict(t.split('=', 1) for t in ans[q].split())
             # writer model tie
             if ans is not None and rec['wq'] is not None and rec['desc'] is not None:
                 if ans[rec['wq']] != rec['desc']:
                     disagreements.append({'msg': f'writer model gives descriptor [{ans[rec["wq"]]}] but the written file has [{rec["desc"]}]', 'recipe': r})
+            if label == 'NITF20-des':
+                # no writer of sarpy produces these: SICDDetails / SIDDDetails level only (what the DES scan finds where it looks)
+                if vmodel.get('path') is not None:
+                    sd, dd = details_level(path)
+                    cells_run += 2
+                    if skips and rec['recipe']['nsym'] + rec['recipe']['nlab'] > 0:
+                        exp_sd, exp_dd = 'N', 'N'        # every DES is read at a wrong offset: nothing is found
+                    else:
+                        exp_sd, exp_dd = model['sd'], model['dd']
+                    if sd != exp_sd:
+                        disagreements.append({'msg': f'NITF 2.0 [{rec["desc"]}] symbols/labels {rec["recipe"]["nsym"]}/{rec["recipe"]["nlab"]}: model sicdDetails={exp_sd} but SICDDetails gives {sd}', 'recipe': r})
+                    if dd != exp_dd:
+                        disagreements.append({'msg': f'NITF 2.0 [{rec["desc"]}] symbols/labels {rec["recipe"]["nsym"]}/{rec["recipe"]["nlab"]}: model siddDetails={exp_dd} but SIDDDetails gives {dd}', 'recipe': r})
+                fac.discard(r, path)
+                continue
             results = {}
-            for key, epname, argkind in CELLS:
+            cells = [c for c in CELLS if c[2] == 'path' or os.path.isfile(path) or r['kind'] == 'special']
+            for key, epname, argkind in cells:
                 res = call(eps[epname], path, argkind)
                 results[(epname, argkind)] = res
                 cells_run += 1
                 matrix.setdefault(label, {}).setdefault(f'{epname}/{argkind}', {}).setdefault(res['out'], 0)
                 matrix[label][f'{epname}/{argkind}'][res['out']] += 1
-            # the non-existent path, once per file kind
             flagged = set()
-            for key, epname, argkind in CELLS:
+            vkey = {'cp': ('path', 'cx'), 'cf': ('fileobj', 'cx'), 'pr': ('path', 'pr'), 'pp': ('path', 'ph'), 'pf': ('fileobj', 'ph'),
+                    'rc': ('path', 'rc'), 'ge': ('path', 'ge'), 'op': ('path', 'op')}
+            for key, epname, argkind in cells:
                 res = results[(epname, argkind)]
                 msg = oracle_cell(label, r, epname, argkind, res, results)
                 if msg:
@@ -784,12 +1086,33 @@ def run(tier):
                     fails.append({'key': classify_failure(label, r, epname, argkind, res), 'msg': msg, 'recipe': r,
                                   'entry_point': epname, 'argument': argkind, 'observed': {k: v for k, v in res.items() if k != 'mro'},
                                   'descriptor': rec['desc']})
-                if model is not None and (epname, argkind) not in flagged:
-                    if model[key] != res['out']:
-                        disagreements.append({'msg': f'model says {key}={model[key]} for [{rec["desc"]}] but {epname}({argkind}) gives {res["out"]} {res["exc"] or ""}',
-                                              'recipe': r, 'entry_point': epname, 'argument': argkind})
+                # the model with every registered opener (Spec.OpenerVendor): compared on every cell, flagged or not - the model
+                # carries the measured defect switches, so it predicts the raised cells too
+                vm = vmodel.get(vkey[key][0])
+                if vm is not None:
+                    mv = vm[vkey[key][1]]
+                    if mv == 'D':
+                        isa_opaque += 1
+                    elif mv != res['out']:
+                        disagreements.append({'msg': f'model (all registered openers) says {key}={mv} for {short(r)} [{rec["desc"]}] but {epname}({argkind}) gives '
+                                                     f'{res["out"]} {res["exc"] or ""}', 'recipe': r, 'entry_point': epname, 'argument': argkind})
                 if rec['desc'] is not None:
-                    classes.add((rec['desc'] if label != 'BLOB' else f'blob:{r["gen"]}:{min(r["n"], 10)}', key))
+                    b = base_recipe(r)
+                    cls = rec['desc'] if b['kind'] != 'blob' else f'blob:{b["gen"]}:{min(b["n"], 10)}'
+                    classes.add((cls, r.get('name'), bool(r.get('siblings')), key))
+            # every registered is_a on its own against its guard table
+            for argkind, vm in vmodel.items():
+                if label == 'BLOB' and r['kind'] == 'blob' and r['n'] > 40 and r['gen'] != 'random':
+                    continue
+                for v in c14x.VENDORS:
+                    if vm[v] == 'D':
+                        isa_opaque += 1
+                        continue
+                    out, exc = is_a_outcome(reg[v], path, argkind)
+                    isa_checked += 1
+                    if out != vm[v]:
+                        disagreements.append({'msg': f'guard table of {v} says {vm[v]} for {short(r)} ({argkind}; world {c14x.world_of(path, argkind)}) but the real '
+                                                     f'is_a gives {out} {exc or ""}', 'recipe': r, 'opener': v, 'argument': argkind})
             # details level: `_find_sicd` / `_find_sidd` against SICDDetails / SIDDDetails
             if model is not None and rec['magic'] == 'nitf21' and not flagged:
                 sd, dd = details_level(path)
@@ -798,11 +1121,8 @@ def run(tier):
                     disagreements.append({'msg': f'model sicdDetails={model["sd"]} for [{rec["desc"]}] but SICDDetails gives {sd}', 'recipe': r})
                 if dd != model['dd']:
                     disagreements.append({'msg': f'model siddDetails={model["dd"]} for [{rec["desc"]}] but SIDDDetails gives {dd}', 'recipe': r})
-            if r['kind'] != 'file':
-                try:
-                    os.remove(path)
-                except OSError:
-                    pass
+            fac.discard(r, path)
+        cells_run += isa_checked
         # a path that does not exist
         missing = os.path.join(tmp, 'does_not_exist.nitf')
         for epname in ('open', 'open_complex', 'open_product', 'open_phase_history', 'open_received', 'open_general'):
@@ -824,10 +1144,16 @@ def run(tier):
         'rule': 'files built from recipes: SICD (0..4 additional DES before the SICD DES, 1..3 image segments, 3 pixel types), SIDD (versions 1-3, '
                 '1..4 products, 1..5 segments per product, 0..2 embedded SICD DES, additional DES, MONO8I/RGB24I, one with a graphics segment), '
                 'CPHD x5 (syntax-only documents made self-consistent: no support arrays), CRSD x3 (built from element classes), SIO, general NITF '
-                '(iq.nitf, NITFWriter files, one NITF 2.0 file), NITF files with random image arrangements and random DES lists (4 ids x 4 payload kinds), '
+                '(iq.nitf, NITFWriter files, one NITF 2.0 file), hand-assembled NITF 2.0 containers (complex-like / non-SAR / integer SAR image segments, '
+                '0..2 symbol, label and text segments, DES without SICD / SIDD document; five with one, at SICDDetails / SIDDDetails level only), '
+                'the same kinds of file under the names product.xml / manifest.safe / *.xml, under an IMG-* name and beside IMG-* / LED-* entries '
+                '(long and 2-byte ones), 20 prefixes of vendor signatures ("II", "MM", "II*", 3 bytes of the HDF5 magic, "GSATIM", "NIT", ...), XML-looking '
+                'strings in x.xml, 10 directories (empty, with a SICD, with junk product.xml / metadata/product.xml / manifest.safe / *.xml / IMG-*), /dev/null, '
+                'NITF files with random image arrangements and random DES lists (4 ids x 4 payload kinds), '
                 'signature-less strings of every length 0..64 and 2^7..2^20 (random, zeros, text, XML text); each file x 8 cells '
-                '(6 entry points by path + open_complex/open_phase_history with an open binary file object) + SICDDetails/SIDDDetails; '
-                'distinct = distinct (descriptor, cell) pairs (blob lengths above 10 merged)',
+                '(6 entry points by path + open_complex/open_phase_history with an open binary file object at position 3) + SICDDetails/SIDDDetails '
+                '+ each of the 17 registered is_a / final_attempt functions on its own, by path and by file object, against its guard table; '
+                'distinct = distinct (descriptor, name, surroundings, cell) tuples (blob lengths above 10 merged)',
         'files': by_label,
         'matrix': matrix,
         'unmodelled_image_class_files': unmodelled,
@@ -837,17 +1163,28 @@ def run(tier):
         'disagreements_checked': len(disagreements),
         'timing': timing,
         'source_policy': {'siddRefusesGraphics': bool(policy)},
+        'policy2_bits': dict(zip(['siddRefusesGraphics', 'nitf20SkipsSymLab', 'nitf20SarRaises', 'tiffShortUnguarded', 'radarsatParseUncaught',
+                                  'tsxDanglingRaises', 'palsarSpecialValueError'], [b == '1' for b in bits])),
+        'policy2_probes': policy_info,
+        'guard_flags_from_regenerated_tables': tab_flags,
+        'is_a_calls_compared_with_guard_tables': isa_checked,
+        'decisions_left_to_unmodelled_remainder': isa_opaque,
     })
     chk.assumptions += [
         'the descriptor abstraction: an opener decision depends on the file only through (signature, image classes, graphics count, DES id/payload classes); '
         'checked by correspondence on the generated files, not proved',
         'image classes modelled: complex I/Q SAR segment (PVTYPE R/SI), SIDD-named integer SAR segment, non-SAR segment; files with any other class '
         '(e.g. AMP8I_PHS8I SICD) are run through the direct oracle only',
-        'vendor openers (Capella, CSK, GFF, ICEYE, NISAR, PALSAR2, RadarSat, Sentinel, TSX, TIFF) are not modelled beyond "refuse everything generated here"; '
-        'their behaviour on the generated files is covered by the correspondence stream only; files are named file_NNNNN.<ext> (name-sensitive vendor tests not exercised)',
-        'NITF 2.0: the model treats 02.00 like 02.10 with no graphics segments; while the implementation raises AttributeError on such files (finding '
-        'nitf20-graphics-attribute-error) the complex/product/open cells of the one NITF 2.0 file are decided by the direct oracle only; after the repair they are compared with the model. '
-        'NITF files without image segments cannot be built with NITFWriter and are not exercised',
+        'vendor openers (Capella, CSK, GFF, ICEYE, NISAR, PALSAR2, RadarSat, Sentinel, TSX, TIFF): their guards (is_a + the head of each details constructor) are '
+        'modelled as guard tables regenerated from the source and bridged by theorem; what follows the guards (HDF5 / TIFF tag / CEOS / product.xml content '
+        'parsing) is an opaque parameter of every theorem - no valid vendor product is generated, cells whose model value depends on it are counted, not compared',
+        'the observations of a path (os.path kind, base-name class, leading-bytes class, parses as XML, first-200-bytes probe, directory entries) are extracted by the '
+        'harness; that an opener depends on its argument only through them is checked by the per-is_a correspondence, not proved',
+        'four guard defects and two NITF 2.0 reader defects are switches of the model (Policy2), measured on the implementation with one stand-in input each and '
+        'cross-checked against the regenerated tables; every theorem holds for all values, the findings are decided by the direct oracle',
+        'NITF 2.0: image / symbol / label / text / DES segments assembled by hand from sarpy\'s 2.0 element classes; a DES read at a wrong offset is taken as "unknown id, not XML" '
+        '(checked on the bytes of each file); 2.0 files that carry a SICD / SIDD document are compared at SICDDetails / SIDDDetails level only. '
+        'NITF files without image segments are not exercised',
         'Policy.siddRefusesGraphics is read from sarpy/io/product/sidd.py by a regular expression on every run (and checked by the correspondence on files with graphics segments)',
         '`raises` in the model covers only SIDD image/DES bookkeeping mismatches (ValueError from SIDDReader); truncated or corrupt files that carry a valid signature are excluded by the property',
         'open_general accepting SICD/SIDD files as plain NITF containers is taken as intended (it is the documented catch-all and last in the cascade): exclusivity is stated over the four family openers',
@@ -863,7 +1200,7 @@ def run(tier):
         seen[f['key']] = f
         uniq.append(f)
     unknown = [f for f in uniq if not chk.known(f.get('key', ''))]
-    for f in unknown[:5]:
+    for f in unknown[:8]:
         chk.violation(f['msg'], {'case': f, 'replay_cmd': './check C14 --replay <this file>'}, True)
     if not unknown and (broken or disagreements):
         chk.violation('proof obligation or correspondence no longer checks: ' + '; '.join(broken[:3] + [d['msg'][:200] for d in disagreements[:2]]),
@@ -895,11 +1232,11 @@ def replay(path):
     try:
         p = Factory(tmp).make(r)
         print('recipe  :', json.dumps(r))
-        print('file    :', os.path.getsize(p), 'bytes, descriptor', describe(p)[0])
+        print('file    :', os.path.getsize(p) if os.path.isfile(p) else '(not a regular file)', 'bytes, descriptor', describe(p)[0], '| observations', c14x.world_of(p, case['argument']))
         eps = entry_points()
         res = call(eps[case['entry_point']], p, case['argument'])
         print(f'{case["entry_point"]}({case["argument"]}) ->', res['out'], res['cls'] or '', res['exc'] or '')
-        results = {(e, a): call(eps[e], p, a) for _, e, a in CELLS}
+        results = {(e, a): call(eps[e], p, a) for _, e, a in CELLS if a == 'path' or os.path.isfile(p) or r['kind'] == 'special'}
         msg = oracle_cell(r['label'], r, case['entry_point'], case['argument'], results[(case['entry_point'], case['argument'])], results)
         print('oracle  :', msg or 'ok')
         return 1 if msg else 0
